@@ -155,7 +155,7 @@ def enum_vals(pos, length, mask, background, absent=''):
     """element values of a segment of `length` elements: listed position pos[i] present iff bit i of mask"""
     vals = [background] * length
     for i, k in enumerate(pos):
-        if k <= length:
+        if 1 <= k <= length:
             vals[k - 1] = 'X' if (mask >> i) & 1 else absent
     return vals
 
@@ -231,6 +231,7 @@ def part_generic(res, classes, built):
             want = want_verdict(t, pos, vals)
             mod = model[i] if model else got
             i += 1
+            res.distinct(('B', t, pos, seg_bits[j]), nontrivial=len(vals) > 0)
             if got != want or mod != got:
                 # the same note inside a map is reported as a violation by part A; here: the theorem no longer transfers
                 bad.setdefault(t, []).append('note %s%s segment %s: code %s, model %s, X12 %s%s' % (
@@ -365,7 +366,7 @@ def part_routing(res, nodes, built):
                     missing.remove(g)
                 else:
                     extra.append(g)
-            tmiss = sorted(set(t for t, pos in notes if (('10' if t == 'E' else '2'), pos[0]) in missing))
+            tmiss = [t for t, pos in notes if (('10' if t == 'E' else '2'), pos[0]) in missing][:1]
             if missing and extra:
                 bad = 'pred:routing:%s:wrong-code-or-position' % ''.join(tmiss)
             elif missing:
@@ -481,17 +482,21 @@ def collect(res):
             skipped[fn] = 'load_map_file: %s: %s' % (type(e).__name__, str(e)[:80])
             continue
         load_ms = {}
+        file_nodes = {}
         for node in m.loop_segment_iterator():
             if not node.is_segment():
                 continue
             k = (node.id, node.get_child_count(), tuple((s[0], tuple(s[1:])) for s in node.syntax))
             load_ms[k] = load_ms.get(k, 0) + 1
             if node.syntax:
-                nodes.setdefault(node_signature(node), (node, fn))
-        if load_ms != xml_ms:
+                file_nodes.setdefault(node_signature(node), (node, fn))
+        if load_ms == xml_ms:
+            for k, v in file_nodes.items():
+                nodes.setdefault(k, v)
+        else:               # the routing part would run on notes that are not the file's notes: report and leave the file out
             diff = sorted(set(xml_ms.items()) ^ set(load_ms.items()), key=repr)[:4]
             res.violation('map:%s:notes-attached-differ-from-file' % fn,
-                          'notes the loader attached to the segments of %s differ from the note texts in the file: %r' % (fn, diff),
+                          'notes the loader attached to the segments of %s differ from the note texts in the file: %s' % (fn, repr(diff)[:300]),
                           {'kind': 'loader', 'map': fn, 'difference (segment id, child count, notes) -> multiplicity': repr(diff)})
     res.notes['maps'] = {'transaction_map_files': len(files), 'not_loadable_skipped_for_routing': skipped,
                          'segment_level_notes': total_notes,
